@@ -35,6 +35,7 @@ class Table(object):
     def __init__(self, name, header, nkeys, has_I):
         self.name, self.header, self.nkeys, self.has_I = name, header, nkeys, has_I
         self.layout = None
+        self.header_line = None     # the header line as printed
         self.rows = []         # (keys tuple, index or None, [(value, start, end)], line number)
 
     def __repr__(self):
@@ -188,15 +189,18 @@ def parse_autough2(lines):
                 i = k + 1
                 continue
             header = None
+            header_line = None
             for h in lines[j + 1:k]:
                 hi = header_info(h)
                 if hi:
                     header = hi
+                    header_line = h
                     break
             if header is None:
                 i = k + 1
                 continue
             t = Table(name, header[0], header[1], False)
+            t.header_line = header_line
             for ln in range(j + 1, k):
                 if header_info(lines[ln]):
                     continue
@@ -235,6 +239,7 @@ def parse_tough2(lines):
                 name = kind
             has_I = len(toks) > nkeys + 1 and toks[nkeys + 1] == 'I'
             table = Table(name, toks, nkeys, has_I)
+            table.header_line = l
             cur['tables'].append(table)
             continue
         if table is not None:
